@@ -117,10 +117,11 @@ func ruleC12Shapes(c *ctx.Ctx, r *core.Reporter) {
 	}
 	// overlay side records (patterns over the syntax tree: local names are free, surrounding statements too)
 	pat := func(fd *ast.FuncDecl, p string) bool { return hasGoPattern(fd.Body, p) }
-	r.Check(pat(ov, `µk := astutil.FuncKey(µd); µµa; µo[µk] = µoi`), "overlay:func-keyed", c.Pos(ov.Pos()), "an overlay function is recorded under its receiver-qualified key")
+	r.Check(pat(ov, `µk := astutil.FuncKey(µd); µµa; µo[µk] = µoi`) || pat(ov, `µk := astutil.FuncKey(µd); µµa; if µc { µo[µk] = µoi }`), "overlay:func-keyed", c.Pos(ov.Pos()), "an overlay function is recorded under its receiver-qualified key")
 	r.Check(pat(ov, `µo[µs.Name.Name] = overrideInfo{purgeMethods: µp}`), "overlay:type-recorded", c.Pos(ov.Pos()), "an overlay type is recorded, with purgeMethods when it is purged")
 	r.Check(pat(ov, `for _, µn := range µs.Names { µµa; µo[µn.Name] = overrideInfo{} }`), "overlay:every-name-of-value-spec", c.Pos(ov.Pos()), "every name of a multi-name var/const specification is recorded")
 	r.Check(pat(ov, "for _, µn := range µs.Names { if µn.Name == `_` { µµa; continue }; µµb }") || pat(ov, "for _, µn := range µs.Names { if µn.Name != `_` { µµa } }"), "overlay:blank-is-not-an-override", c.Pos(ov.Pos()), "the blank identifier in an overlay value specification is not recorded as an override (it would delete every blank declaration of the original, with the side effects of their initialisers)")
+	r.Check(pat(ov, "µk := astutil.FuncKey(µd); µµa; if µd.Name.Name != `_` { µo[µk] = µoi }") || pat(ov, "if µd.Name.Name == `_` { µµx; break }; µµa; µo[µk] = µoi"), "overlay:blank-func-is-not-an-override", c.Pos(ov.Pos()), "an overlay `func _()` (a compile-time assertion) or a method named `_` declares nothing and is not recorded: under the key `_` it would delete every `func _()` AND every `var _ = f()` of the original, with the side effects of the initialisers")
 	r.Check(pat(ov, `for µj, µspec := range µd.Specs { µp := µpd || astutil.Purge(µspec); µµrest }`), "overlay:purge-decided-per-spec", c.Pos(ov.Pos()), "whether a specification of a group is purged is decided afresh for each specification (the declaration's directive or its own), never carried over from an earlier one")
 	r.Check(pat(ov, `if astutil.OverrideSignature(µd) { µoi.overrideSignature = µd; µpurge = true }`), "overlay:override-signature-removes-stub", c.Pos(ov.Pos()), "an override-signature stub is recorded and removed from the overlay")
 	// original side
